@@ -12,6 +12,8 @@ import (
 	"net"
 	"net/http"
 	"net/url"
+	"os"
+	"path/filepath"
 	"sort"
 	"strconv"
 	"strings"
@@ -436,9 +438,37 @@ var propWire = &kit.Prop[WireCase]{
 	Gates: map[string]float64{"unmet-after-api-request-on-connection": 0.5},
 }
 
+// e2eDoneMarker: see TestEndToEnd.
+func e2eDoneMarker() string { return filepath.Join(kit.OutDir(), "c13-e2e-done") }
+
+// TestEndToEnd lives in the file that sorts first so that it runs before the
+// other tests of the package. The race process and non-race shard 0 share one
+// journal file name (kit: current-<shard>.json in the run's directory); every
+// journaled e2e case removes that file when it ends, which would also remove
+// the journal a halted race process left behind - and with it the replayable
+// case of a detected race. Shard 0 therefore runs its journaled cases first
+// and leaves a marker; the race process starts its cases once it is there.
 func TestEndToEnd(t *testing.T) {
 	if kit.Race() {
 		t.Skip("the race shard is spent on the in-process concurrent variant")
 	}
+	if kit.Shard() == 0 {
+		defer os.WriteFile(e2eDoneMarker(), []byte("done\n"), 0o644)
+	}
 	propWire.Check(t, kit.N(40, 150))
+}
+
+// waitForE2E is called by the race process before its first case (bounded;
+// pure orchestration, nothing is asserted on it).
+func waitForE2E() {
+	if os.Getenv("VERIF_OUT") == "" {
+		return // not under the driver: nobody shares the directory
+	}
+	deadline := time.Now().Add(90 * time.Second)
+	for time.Now().Before(deadline) {
+		if _, err := os.Stat(e2eDoneMarker()); err == nil {
+			return
+		}
+		time.Sleep(20 * time.Millisecond)
+	}
 }
